@@ -25,7 +25,7 @@ def run(ctx):
 
     # ---- (1) trickle runs on the policy unslicers, compared with the model chunk by chunk
     model_cases = []
-    n = ctx.n(90, 3000)
+    n = ctx.n(55, 3000)
     with I.E_quiet():
         for i in range(n):
             limit = r.choice([0, 1, 3, 10, 100])
@@ -78,12 +78,12 @@ def run(ctx):
             if hw >= bound:
                 ctx.fail("oracle/buffer-exceeds-bound", "buffer high-water %d >= 65 + max(limit, SIZE_LIMIT) = %d; %s" % (hw, bound, where),
                          replay=dict(stream=list(stream), chunks=cs, rootmode=mode, highwater=hw))
-            if len(cs) <= 700:
+            if len(cs) <= (300 if ctx.tier == "quick" else 700):
                 model_cases.append((stream, cs, mode, ev, snaps))
         real_constraints(ctx, I)
         if model_ok:
             from harness import c07_std
-            c07_std.std_correspondence(ctx, I, ctx.n(50, 1500), label="C11_std")
+            c07_std.std_correspondence(ctx, I, ctx.n(35, 1500), label="C11_std")
     if model_ok:
         schema_bounds(ctx)
     ctx.sample(dict(kind="trickle", stream=list(model_cases[0][0][:80]), chunks=model_cases[0][1][:10], rootmode=model_cases[0][2]))
@@ -328,7 +328,7 @@ def schema_bounds(ctx):
     from foolscap.schema import ListOf, TupleOf, DictOf, SetOf, UnicodeConstraint, BooleanConstraint, ChoiceOf
     from foolscap.slicers.none import Nothing
     items = []
-    for k in (0, 1, 5, 40, 300):
+    for k in ((0, 5, 300) if ctx.tier == "quick" else (0, 1, 5, 40, 300)):
         leaves = [("bytes<=%d" % k, lambda: ByteStringConstraint(maxLength=k), k), ("int<=%dB" % max(4, k), lambda: IntegerConstraint(maxBytes=max(4, k)), max(4, k)),
                   ("int32", lambda: IntegerConstraint(maxBytes=-1), 0), ("number", lambda: NumberConstraint(maxBytes=max(4, k)), max(4, k)),
                   ("unicode<=%d" % k, lambda: UnicodeConstraint(maxLength=k), 6 * k), ("bool", lambda: BooleanConstraint(), 0), ("none", lambda: Nothing(), 0),
